@@ -778,6 +778,10 @@ func (env *SpecEnv) callExpr(c *ast.CallExpr) (*Val, error) {
 			if _, ok := a.Typ.Underlying().(*types.Map); ok {
 				return mathInt(env.fr.mapLen(env.cur, a.T, env.fr.mapHeaps(a.Typ))), nil
 			}
+			if _, ok := a.Typ.Underlying().(*types.Chan); ok && fn.Name == "cap" {
+				env.fr.U().declFun("chan.cap", "(declare-fun chan.cap (Int) Int)")
+				return mathInt(sx("chan.cap", a.T)), nil
+			}
 		}
 		return nil, fmt.Errorf("len of %s", a.S)
 	case "has":
